@@ -1,4 +1,6 @@
 """C12 Byte channels are lossless bounded FIFO pipes with no lost wake-ups."""
+import re
+
 from mirlib import AnchorMissing, describe_operand, guards, switch_desc, _suffix_match
 from rules.common import aggregates, callers_by_name, calls_on_field, crate_aggregates, field_writes, owner_def, where
 
@@ -166,27 +168,18 @@ def conduit_rules(ctx, c, cfg):
             r.check(inw and x.via_name == "extend_from_slice", "data-growth/%s::%s" % (b.meta.get("name"), x.via_name), x.loc(), "data grows only in Conduit::write via extend_from_slice",
                     "data grows in %s via %s" % (b.defpath, x.via_name))
             if inw:
-                # the range end of &buf[..len] must be *exactly* min(buf.len(), avail)
-                ends = [a for a in aggregates(b, "core::ops::range::RangeTo")]
-                good = bool(ends)
-                for a in ends:
-                    op = a[2][0]
-                    pl = op[1] if op[0] in ("c", "m") else None
-                    d = b.single_def(b.resolve(pl).root) if pl is not None else None
-                    okk = False
-                    if d is not None and d[0] == "call" and d[2].via_name == "min" and len(d[2].args) == 2:
-                        roots = set()
-                        for arg in d[2].args:
-                            pa = arg[1] if arg[0] in ("c", "m") else None
-                            if pa is None:
-                                continue
-                            dd = b.single_def(b.resolve(pa, through_calls=False).root)
-                            if dd is not None and dd[0] == "call" and dd[2].name == "len":
-                                roots.add(("len", b.resolve(dd[2].args[0][1]).root))
-                            else:
-                                roots.add(("val", b.resolve(pa).root))
-                        okk = roots == {("len", 2), ("val", 3)}
-                    good = good and okk
+                # what is appended must be a prefix of the caller's slice whose length is *exactly* min(buf.len(), avail) - however the prefix is taken
+                # (&buf[..n], &buf[0..n], buf.split_at(n).0, buf.get(..n)) and however the minimum is written (Ord::min, cmp::min, an `if`)
+                arg = describe_operand(b, x.args[1])
+                mprefix = None
+                for pat in (r"^index\(buf, RangeTo::RangeTo\((?P<n>.+)\)\)$", r"^index\(buf, Range::Range\(0, (?P<n>.+)\)\)$", r"^split_at(?:_checked)?\(buf, (?P<n>.+)\)(?:<Some>\.0)?\.0$",
+                            r"^(?:unwrap|expect|unwrap_or_default)\(get\(buf, RangeTo::RangeTo\((?P<n>.+?)\)\)(?:, .*)?\)$", r"^get\(buf, RangeTo::RangeTo\((?P<n>.+)\)\)<Some>\.0$",
+                            r"^split_first_chunk\(buf\).*$"):
+                    mm = re.match(pat, arg)
+                    if mm and "n" in mm.groupdict():
+                        mprefix = mm.group("n")
+                        break
+                good = mprefix is not None and _is_min_of(b, mprefix, x)
                 r.check(good, "write/len=min(buf.len,avail)", x.loc(),
                         "the slice written is &buf[..min(buf.len(), avail)]", "the slice end is not exactly min(buf.len(), avail): the buffer can exceed its capacity")
         pw = c.fn(name="poll_write", self_adt=COND)
@@ -394,6 +387,36 @@ def coop_rules(ctx, c, cfg):
         if cfg == "default" and n < 4:
             raise AnchorMissing("expected 4 coop poll methods calling consume_budget, found %d" % n)
 
+
+
+def _is_min_of(b, desc, at):
+    """Is the value described by `desc` exactly min(buf.len(), avail)?"""
+    if desc in ("min(len(buf), avail)", "min(avail, len(buf))"):
+        return True
+    # `let n = if buf.len() < avail { buf.len() } else { avail }`: a local assigned one of the two under the comparison that selects the smaller
+    from mirlib import describe_call, describe_place, describe_rvalue, dom_guards
+    cand = [l for l in range(len(b.locals)) if len(b.defs.get(l, ())) == 2 and describe_place(b, [l, []]) == desc]
+    for loc in cand:
+        ds = [df for df in b.defs.get(loc, ()) if df[0] in ("assign", "call")]
+        if len(ds) != 2 or len(b.defs.get(loc, ())) != 2:
+            continue
+        vals = {(describe_rvalue(b, df[3]) if df[0] == "assign" else describe_call(b, df[2])): df for df in ds}
+        if set(vals) != {"len(buf)", "avail"}:
+            continue
+        g = dom_guards(b, vals["len(buf)"][1])
+        for d, l, _ in g:
+            m = re.match(r"^(Lt|Le|Gt|Ge)\((.+), (.+)\)$", d)
+            if not m or l not in ("true", "false"):
+                continue
+            op, a1, a2 = m.groups()
+            if {a1, a2} != {"len(buf)", "avail"}:
+                continue
+            len_first = a1 == "len(buf)"
+            less = op in ("Lt", "Le")
+            # the edge on which len(buf) is chosen must be the one where len(buf) <= avail
+            if (less == len_first) == (l == "true"):
+                return True
+    return False
 
 def run(ctx):
     c = ctx.crate(BC)
